@@ -138,7 +138,9 @@ Lemma ping_slot c : In c band_configs -> forall reg, region_of (c_name c) = Some
   get_ping_slot_frequency c devaddr beacon = Ok (spec_ping_slot reg devaddr beacon).
 Proof.
   intros Hc reg Hreg devaddr beacon Hd Hb.
-  unfold get_ping_slot_frequency, spec_ping_slot. rewrite ping_channel_nonneg by assumption.
+  unfold get_ping_slot_frequency, spec_ping_slot.
+  replace (beacon <? 0) with false by (symmetry; apply Z.ltb_ge; exact Hb). rewrite andb_false_r.
+  rewrite ping_channel_nonneg by assumption.
   set (k := (devaddr + beacon / beacon_period_ns) mod 8).
   assert (Hk : 0 <= k < 8) by (apply Z.mod_pos_bound; lia).
   pose proof ping_check_ok as H. unfold ping_check in H.
@@ -146,4 +148,50 @@ Proof.
   rewrite forallb_forall in H.
   assert (Hin : In k (zrange 0 7)) by (apply zrange_In; lia).
   specialize (H k Hin). now apply oz_eqb_eq.
+Qed.
+
+(* ANY beacon time, negative ones included: never a panic; before the GPS epoch the hopping
+   regions answer with an error, the fixed-frequency regions with their frequency *)
+Lemma kind_region_check_ok' : kind_region_check = true.
+Proof. vm_compute. reflexivity. Qed.
+
+Lemma hopping_identity_kind k : hopping_kind k = negb (identity_kind k).
+Proof. destruct k; reflexivity. Qed.
+Lemma hopping_identity_region r : hopping_region r = negb (identity_region r).
+Proof. destruct r; reflexivity. Qed.
+
+Lemma ping_slot_at_fixed c k : hopping_kind (c_kind c) = false -> ping_slot_at c k = ping_slot_at c 0.
+Proof. unfold ping_slot_at. destruct (c_kind c); intros E; try reflexivity; discriminate. Qed.
+
+Lemma oz_eqb_refl x : outcome_eqb Z.eqb (Ok x) (Ok x) = true.
+Proof. cbn [outcome_eqb]. apply Z.eqb_refl. Qed.
+
+Lemma ping_slot_any_time c : In c band_configs -> forall reg, region_of (c_name c) = Some reg ->
+  forall devaddr beacon, 0 <= devaddr ->
+  ping_slot_any_ok reg devaddr beacon (get_ping_slot_frequency c devaddr beacon) = true.
+Proof.
+  intros Hc reg Hreg devaddr beacon Hd. unfold ping_slot_any_ok.
+  destruct (Z.leb_spec 0 beacon) as [Hb|Hb].
+  - rewrite (ping_slot c Hc reg Hreg devaddr beacon Hd Hb). unfold ping_slot_ok. apply oz_eqb_refl.
+  - pose proof kind_region_check_ok' as K. unfold kind_region_check in K.
+    rewrite forallb_forall in K. specialize (K c Hc). rewrite Hreg in K. apply Bool.eqb_prop in K.
+    assert (Ehk : hopping_kind (c_kind c) = hopping_region reg)
+      by (rewrite hopping_identity_kind, hopping_identity_region, K; reflexivity).
+    unfold get_ping_slot_frequency. rewrite Ehk.
+    replace (beacon <? 0) with true by (symmetry; apply Z.ltb_lt; exact Hb).
+    destruct (hopping_region reg) eqn:HR; cbn [andb]; [reflexivity|].
+    rewrite ping_slot_at_fixed by (rewrite Ehk; reflexivity).
+    pose proof ping_check_ok as H. unfold ping_check in H.
+    rewrite forallb_forall in H. specialize (H c Hc). rewrite Hreg in H.
+    rewrite forallb_forall in H.
+    assert (Hin : In 0 (zrange 0 7)) by (apply zrange_In; lia).
+    specialize (H 0 Hin). apply oz_eqb_eq in H. rewrite H. apply oz_eqb_refl.
+Qed.
+
+Lemma ping_slot_no_panic c : In c band_configs -> forall devaddr beacon, 0 <= devaddr ->
+  get_ping_slot_frequency c devaddr beacon <> Panic.
+Proof.
+  intros Hc devaddr beacon Hd. destruct (region_known c Hc) as [reg Hreg].
+  pose proof (ping_slot_any_time c Hc reg Hreg devaddr beacon Hd) as H. unfold ping_slot_any_ok, ping_slot_ok in H.
+  intros E. rewrite E in H. destruct (0 <=? beacon); [discriminate|]. destruct (hopping_region reg); discriminate.
 Qed.
